@@ -367,6 +367,10 @@ func (se *SpecEnv) index(base Value, idx *Term) Value {
 		if b.Obj == nil {
 			unsup("spec index of nil slice")
 		}
+		if _, soa := se.fr.v.getPath(se.fr.v.content(se.state(), b.Obj), b.Path).(*SoAV); soa {
+			// element of a struct slice: keep the address, so that field selectors resolve through the static type
+			return &PtrV{Obj: b.Obj, Path: append(append([]PE(nil), b.Path...), PE{T: F.Add(b.Off, idx)})}
+		}
 		return se.fr.v.getPath(se.fr.v.content(se.state(), b.Obj), append(append([]PE(nil), b.Path...), PE{T: F.Add(b.Off, idx)}))
 	case *IteV:
 		return se.fr.v.mergeV(b.C, se.index(b.A, idx), se.index(b.B, idx))
@@ -701,6 +705,13 @@ func (se *SpecEnv) callSpec(c *ast.CallExpr) Value {
 		bn := fmt.Sprintf("%s!q%d", id.Name, se.fr.v.fresh)
 		bv := F.Var(bn, SInt)
 		body := se.withBound(id.Name, bv, c.Args[3])
+		if sh := boundShift(body, bv); sh != nil && sh.Sign() != 0 {
+			// canonical indexing: every occurrence of the bound variable is "j + c" with one constant c (a clause
+			// about a subslice b[c:]): re-index by j' = j + c, so that the same statement about the same cells is
+			// the same term whichever slice view it was written over
+			body = F.Subst(body, map[*Term]*Term{bv: F.Sub(bv, F.Int(sh))})
+			lo, hi = F.Add(lo, F.Int(sh)), F.Add(hi, F.Int(sh))
+		}
 		rng := F.And(F.Le(lo, bv), F.Lt(bv, hi))
 		if name == "forall" {
 			return F.Forall(bn, F.Imp(rng, body))
@@ -969,4 +980,58 @@ func (se *SpecEnv) readCond(x Value) Value {
 		return se.F().Ite(iv.C, at, bt)
 	}
 	return &IteV{C: iv.C, A: a, B: b}
+}
+
+// boundShift: the constant c such that every occurrence of the bound variable bv in body is a summand of a sum
+// whose constant summand is c (0 when it occurs bare or in a sum without a constant); nil when occurrences disagree.
+func boundShift(body, bv *Term) *big.Int {
+	var c *big.Int
+	ok := true
+	seen := map[*Term]bool{}
+	note := func(k *big.Int) {
+		if c == nil {
+			c = k
+		} else if c.Cmp(k) != 0 {
+			ok = false
+		}
+	}
+	var rec func(t *Term)
+	rec = func(t *Term) {
+		if !ok || seen[t] {
+			return
+		}
+		seen[t] = true
+		if t == bv {
+			note(new(big.Int))
+			return
+		}
+		if t.Op == OAdd {
+			has := false
+			k := new(big.Int)
+			for _, a := range t.Args {
+				if a == bv {
+					has = true
+				} else if a.Op == OConst {
+					k = a.K
+				}
+			}
+			if has {
+				note(k)
+				for _, a := range t.Args {
+					if a != bv {
+						rec(a)
+					}
+				}
+				return
+			}
+		}
+		for _, a := range t.Args {
+			rec(a)
+		}
+	}
+	rec(body)
+	if !ok {
+		return nil
+	}
+	return c
 }
